@@ -38,6 +38,9 @@ type (
 	HashedTable struct {
 		Rows map[string][]*any
 		Keys map[string]*Map
+		// Order lists the keys in order of first appearance so that joins
+		// produce their rows in the same order on every run
+		Order []string
 	}
 )
 
@@ -95,6 +98,7 @@ func ToCatalog(rows []any, ident string, identRight string, joinExpr sqlparser.E
 		if _, ok := hashedTable.Keys[hash]; !ok {
 			hashedTable.Rows[hash] = make([]*any, 0)
 			hashedTable.Keys[hash] = &mapper
+			hashedTable.Order = append(hashedTable.Order, hash)
 		}
 		hashedTable.Rows[hash] = append(hashedTable.Rows[hash], &r)
 	}
@@ -191,7 +195,7 @@ func (j *Join) HashJoin() ([]any, error) {
 
 func (j *Join) HashJoinFunc(l, r *HashedTable) ([]any, error) {
 	slice := make([]any, 0)
-	for lk := range l.Rows {
+	for _, lk := range l.Order {
 		switch ok, matches, err := j.HashJoinMatchFunc(lk, l, r); {
 		case ok:
 			{
@@ -213,7 +217,8 @@ func (j *Join) HashJoinFunc(l, r *HashedTable) ([]any, error) {
 func (j *Join) JoinFunc(l, r *HashedTable) ([]any, error) {
 	var mut sync.Mutex
 	slice := make([]any, 0)
-	for lk, lv := range l.Keys {
+	for _, lk := range l.Order {
+		lv := l.Keys[lk]
 		switch ok, matches, err := j.JoinMatchFunc(lk, lv, l, r); {
 		case ok:
 			{
@@ -281,7 +286,8 @@ func (j *Join) ParallelJoinFunc(l, r *HashedTable) ([]any, error) {
 func (j *Join) JoinMatchFunc(lk string, lv *map[string]any, l, r *HashedTable) (bool, []any, error) {
 	slice := make([]any, 0)
 	b := false
-	for rk, rv := range r.Keys {
+	for _, rk := range r.Order {
+		rv := r.Keys[rk]
 		_current := make(Map)
 		maps.Copy(_current, *lv)
 		maps.Copy(_current, *rv)
